@@ -121,6 +121,11 @@ func drvClient(c *ctx) error {
 		}
 		// the caller's payload: base fields filled with junk that the client must overwrite (except a non-zero TransactionID)
 		base := backend.BasePayload{ProtocolVersion: "9.9", SenderID: "junk-sender", ReceiverID: "junk-receiver", TransactionID: txid, MessageType: backend.MessageType("Junk")}
+		if c.rnd.Intn(2) == 0 { // optional members of the base payload that the client must carry through
+			base.SenderToken = backend.HEXBytes(c.bytesN(1 + c.rnd.Intn(6)))
+			base.ReceiverToken = backend.HEXBytes(c.bytesN(1 + c.rnd.Intn(6)))
+			base.VSExtension = backend.VSExtension{VendorID: backend.HEXBytes(c.bytesN(3)), Object: json.RawMessage(fmt.Sprintf(`{"k":%d}`, c.rnd.Intn(1000)))}
+		}
 		var dev lorawan.EUI64
 		copy(dev[:], c.bytesN(8))
 		phy := backend.HEXBytes(c.bytesN(1 + c.rnd.Intn(20)))
@@ -179,7 +184,12 @@ func drvClient(c *ctx) error {
 		gdoc, _ := json.Marshal(given)
 		grest, gbase, _ := restOf(gdoc)
 		srest, sbase, sok := restOf(seenBody)
-		ev := M{"ev": "client", "method": method, "panic": res, "cfg": M{"sender": bs([]byte(sender)), "receiver": bs([]byte(receiver)), "auth": bs([]byte(auth))},
+		opt := func(m M) []int {
+			b, _ := json.Marshal(M{"SenderToken": m["SenderToken"], "ReceiverToken": m["ReceiverToken"], "VSExtension": m["VSExtension"]})
+			return bs(b)
+		}
+		givenopt, seenopt := opt(gbase), opt(sbase)
+		ev := M{"ev": "client", "method": method, "panic": res, "givenopt": givenopt, "seenopt": seenopt, "cfg": M{"sender": bs([]byte(sender)), "receiver": bs([]byte(receiver)), "auth": bs([]byte(auth))},
 			"giventx": le32(txid), "givenzero": txid == 0, "givenrest": bs([]byte(grest)), "givenbase": M{"msgtype": strOf(gbase["MessageType"])},
 			"seen": M{"ok": sok, "http": seenMethod, "ct": bs([]byte(seenCT)), "auth": bs([]byte(seenAuth)), "rest": bs([]byte(srest)),
 				"pv": strOf(sbase["ProtocolVersion"]), "sender": bs([]byte(strOf(sbase["SenderID"]))), "receiver": bs([]byte(strOf(sbase["ReceiverID"]))),
